@@ -249,6 +249,11 @@ func Main(t *testing.T) {
 				}
 				prog.Goroutines = append(prog.Goroutines, ops)
 			}
+			if def.Stub && d.chance(40) {
+				for k := 0; k < 1+d.intn(2); k++ {
+					prog.NilFuncs = append(prog.NilFuncs, d.intn(nm))
+				}
+			}
 			fc.Program = prog
 			// the race detector kills the process: leave the input behind before running it
 			if b, e := json.Marshal(fc); e == nil {
